@@ -542,7 +542,15 @@ fn convenience_part(t: &mut Tally, long: usize) {
                 let mut ok = true;
                 for i in 0..n {
                     let key = i == 0 || (codec != VCodec::Av1 && i % 4 == 0);
-                    let (vd, _) = video_frame(codec, key, i == 0, i as u32 + 1, 4 + i % 3);
+                    let (mut vd, _) = video_frame(codec, key, i == 0, i as u32 + 1, 4 + i % 3);
+                    if codec == VCodec::H265 && key && i > 0 {
+                        // the other random-access picture types of H.265: IDR_N_LP (20), CRA (21)
+                        // and, as a non-key control, BLA_W_LP (16): both paths must agree on them
+                        let ty: u8 = [20u8, 21, 16][(i / 4) % 3];
+                        if let Some(p) = vd.windows(2).position(|w| w == [0x26, 0x01]) {
+                            vd[p] = ty << 1;
+                        }
+                    }
                     let vd = Bytes::new(vd);
                     let d = durs[i % durs.len()];
                     if rejects && i % 2 == 1 {
